@@ -460,7 +460,19 @@ func fieldPathOf(v ssa.Value) (fieldPathKey, string, bool) {
 // ---- obligations --------------------------------------------------------------------------------
 
 func (e *lbEngine) isLeafHelper(fn *ssa.Function) bool {
-	if fn.Signature.Recv() == nil || len(fn.Blocks) > 3 || len(naturalLoops(fn)) > 0 {
+	if len(fn.Blocks) > 3 || len(naturalLoops(fn)) > 0 {
+		return false
+	}
+	if fn.Signature.Recv() == nil {
+		// the error constructor shared with the parser (see inScope): reported at the place that asks for the error
+		if fnPkgPath(fn) != modRoot || e.astScope {
+			return false
+		}
+		for _, p := range fn.Params {
+			if isNamed(p.Type(), modRoot+"/token", "File") {
+				return true
+			}
+		}
 		return false
 	}
 	n := namedOf(fn.Signature.Recv().Type())
@@ -2914,6 +2926,14 @@ func (e *lbEngine) inScope(fn *ssa.Function) bool {
 		return true
 	case fnPkgPath(fn) == modRoot+"/char":
 		return true
+	case fnPkgPath(fn) == modRoot && fn.Signature.Recv() == nil && len(naturalLoops(fn)) == 0:
+		// a constructor of errors shared by the lexer and the parser (newError(file, pos, end, …)): followed where the
+		// lexer calls it, for the positions it hands to File.Position
+		for _, p := range fn.Params {
+			if isNamed(p.Type(), modRoot+"/token", "File") {
+				return true
+			}
+		}
 	}
 	return false
 }
